@@ -104,7 +104,7 @@ func (f *IPv4Filter) Remove(cidr *net.IPNet) error {
 func (f *IPv4Filter) Contains(ip net.IP) bool {
 	if f.matchAll.Load() {
 		return true
-	} else if len(ip) != net.IPv4len {
+	} else if ip = ip.To4(); ip == nil {
 		return false
 	}
 
